@@ -2,6 +2,7 @@
 against the unmodified code, apply known findings, write evidence, print verdict."""
 from __future__ import annotations
 
+import fnmatch as _fn
 import hashlib
 import inspect
 import json
@@ -461,7 +462,7 @@ def _handle_cex(h, res, prop, what, m, inputs, known, replay_dir, detail="", exc
         return
     sig = _signature(h, what, exc)
     for kf in known:
-        if kf.get("status") == "recorded" and kf["property"] == prop and kf["harness"] == h.name and kf["signature"] == sig:
+        if kf.get("status") == "recorded" and kf["property"] == prop and _fn.fnmatchcase(h.name, kf["harness"]) and kf["signature"] == sig:
             if kf not in res.known:
                 res.known.append(kf)
             return
